@@ -148,7 +148,19 @@ macro_rules! seq_probe {
         let far: Vec<U> = (0..6usize)
             .map(|j| U::res(caught(|| <$R>::probe(it.get(usize::MAX - j)))))
             .collect();
-        let ps: Vec<U> = it.iter().map(|x| <$R>::probe(x)).collect();
+        // iteration: the iterators are ExactSizeIterators, so at every step len() is the number of items left
+        let mut iter = it.iter();
+        let mut ps: Vec<U> = Vec::new();
+        loop {
+            let left = ExactSizeIterator::len(&iter);
+            if left != n.wrapping_sub(ps.len()) {
+                panic!("iterator reports {} items left, {} expected", left, n.wrapping_sub(ps.len()));
+            }
+            match iter.next() {
+                Some(x) => ps.push(<$R>::probe(x)),
+                None => break,
+            }
+        }
         let o = it.into_owned();
         U::L(vec![
             U::nat(n),
